@@ -32,23 +32,24 @@ type vfCOp struct {
 }
 
 type vfConcCase struct {
-	Profile     string    `json:"profile"`
-	KeyType     string    `json:"key_type"`
-	HashMode    string    `json:"hash_mode"` // default | collide1 | collide2 | collide3 | distinct
-	Keys        int       `json:"keys"`
-	MaxCost     int64     `json:"max_cost"`
-	NumCounters int64     `json:"num_counters"`
-	BufferItems int64     `json:"buffer_items"`
-	SetBufSize  int       `json:"set_buf_size"`
-	Metrics     bool      `json:"metrics"`
-	TickerSecs  int64     `json:"ttl_ticker_secs"`
-	Procs       int       `json:"gomaxprocs"`
-	CostYield   int       `json:"cost_cb_yields"`   // Config.Cost yields n times
-	CostSleepUs int       `json:"cost_cb_sleep_us"` // ... or sleeps (virtual)
-	EvictYield  int       `json:"evict_cb_yields"`
-	ExitYield   int       `json:"exit_cb_yields"`
-	ShouldUpd   bool      `json:"should_update_fn"`
-	Progs       [][]vfCOp `json:"programs"`
+	Profile        string    `json:"profile"`
+	KeyType        string    `json:"key_type"`
+	HashMode       string    `json:"hash_mode"` // default | collide1 | collide2 | collide3 | distinct
+	Keys           int       `json:"keys"`
+	MaxCost        int64     `json:"max_cost"`
+	NumCounters    int64     `json:"num_counters"`
+	BufferItems    int64     `json:"buffer_items"`
+	SetBufSize     int       `json:"set_buf_size"`
+	Metrics        bool      `json:"metrics"`
+	TickerSecs     int64     `json:"ttl_ticker_secs"`
+	Procs          int       `json:"gomaxprocs"`
+	CostYield      int       `json:"cost_cb_yields"`   // Config.Cost yields n times
+	CostSleepUs    int       `json:"cost_cb_sleep_us"` // ... or sleeps (virtual)
+	EvictYield     int       `json:"evict_cb_yields"`
+	ExitYield      int       `json:"exit_cb_yields"`
+	ShouldUpd      bool      `json:"should_update_fn"`
+	ShouldUpdYield int       `json:"should_update_yields"`
+	Progs          [][]vfCOp `json:"programs"`
 }
 
 type vfCRec struct {
@@ -141,8 +142,16 @@ func vfConcExec[K Key](c *vfConcCase, mk func(i int) K, idxOf func(K) int) *vfCo
 			return 1 + int64(v%3)
 		}
 	}
-	if c.ShouldUpd {
-		conf.ShouldUpdate = vfShouldUpdate
+	if c.ShouldUpd || c.ShouldUpdYield > 0 {
+		conf.ShouldUpdate = func(cur, prev uint64) bool {
+			for i := 0; i < c.ShouldUpdYield; i++ {
+				runtime.Gosched() // a slow user predicate: widens whatever window it is evaluated in
+			}
+			if c.ShouldUpd {
+				return vfShouldUpdate(cur, prev)
+			}
+			return true
+		}
 	}
 	if c.HashMode != "default" {
 		conf.KeyToHash = func(k K) (uint64, uint64) { return vfConcHash(c.HashMode, idxOf(k)) }
@@ -702,10 +711,10 @@ func vfGenConcCase(t *rapid.T, p *vfConcProfile, maxG int) *vfConcCase {
 		c.Keys = rapid.IntRange(2, 6).Draw(t, "keys2")
 	}
 	if p.id == "C01" {
-		c.KeyType = rapid.SampledFrom([]string{"uint64", "int", "int32", "uint32", "int64", "uint", "byte", "string", "string", "bytes", "bytes",
+		c.KeyType = rapid.SampledFrom([]string{"uint64", "int", "int32", "uint32", "int64", "uint", "byte", "string", "string", "string", "bytes", "bytes", "bytes",
 			"named-string", "named-bytes", "named-uint64", "named-int"}).Draw(t, "keytype")
 		if c.KeyType == "string" || c.KeyType == "bytes" || c.KeyType == "named-string" || c.KeyType == "named-bytes" {
-			c.HashMode = rapid.SampledFrom([]string{"default", "collide1", "collide2", "collide3", "collide2", "distinct"}).Draw(t, "hashmode")
+			c.HashMode = rapid.SampledFrom([]string{"default", "collide1", "collide2", "collide3", "collide2", "collide3", "distinct"}).Draw(t, "hashmode")
 		}
 	}
 	c.MaxCost = int64(rapid.IntRange(3, 22).Draw(t, "maxcost"))
@@ -724,6 +733,7 @@ func vfGenConcCase(t *rapid.T, p *vfConcProfile, maxG int) *vfConcCase {
 	c.EvictYield = rapid.IntRange(0, 3).Draw(t, "evictyield")
 	c.ExitYield = rapid.SampledFrom([]int{0, 0, 1, 3, 10}).Draw(t, "exityield")
 	c.ShouldUpd = rapid.IntRange(0, 5).Draw(t, "shouldupd") == 0
+	c.ShouldUpdYield = rapid.SampledFrom([]int{0, 0, 0, 1, 3, 8}).Draw(t, "shouldupdyield")
 	g := rapid.IntRange(2, maxG).Draw(t, "goroutines")
 	var kinds []string
 	total := 0
